@@ -806,8 +806,9 @@ func (tx *OngoingTx) checkPreconditions(ctx context.Context, st *ImmuStore) erro
 
 	for _, txSnap := range tx.snapshots {
 		if txSnap.Ts() > st.LastPrecommittedTxID() {
-			// read-write transactions when no other transaction was committed won't be invalidated
-			return nil
+			// reads made on this snapshot won't be invalidated when no other transaction was committed;
+			// reads made on the other snapshots must still be validated
+			continue
 		}
 
 		// current snapshot is fetched without flushing
